@@ -94,6 +94,7 @@ theorem constrainIsoDay_safe (y m d : Int) (h : 1 ≤ m ∧ m ≤ 12) : (constra
   unfold IsoDateTime.new; safe_auto
 @[safe] theorem asNanoseconds_safe (dt : IsoDateTime) : dt.asNanoseconds.Safe := by
   unfold IsoDateTime.asNanoseconds; safe_auto
+@[safe] theorem utcEpochNs_safe (dt : IsoDateTime) : dt.utcEpochNs.Safe := Out.safe_ok _
 @[safe] theorem fromEpochNanos_safe (n off : Int) : (IsoDateTime.fromEpochNanos n off).Safe := by
   unfold IsoDateTime.fromEpochNanos
   dsimp only
@@ -461,12 +462,12 @@ theorem nudgeCalendarUnit_parts {sign destNs : Int} {dt : IsoDateTime} {date : D
           | panic => rw [h4] at hn; cases hn
           | ok en =>
             rw [h4] at hn; simp only [Out.bind_ok] at hn
-            cases h5 : st.asNanoseconds with
+            cases h5 : st.utcEpochNs with
             | err e => rw [h5] at hn; cases hn
             | panic => rw [h5] at hn; cases hn
             | ok sn =>
               rw [h5] at hn; simp only [Out.bind_ok] at hn
-              cases h6 : en.asNanoseconds with
+              cases h6 : en.utcEpochNs with
               | err e => rw [h6] at hn; cases hn
               | panic => rw [h6] at hn; cases hn
               | ok enn =>
@@ -501,7 +502,7 @@ theorem bubbleLoop_safe (sign nudgeNs : Int) (dt : IsoDateTime) (largest : TUnit
       split
       · exact ih _ _ hsucc
       · refine Out.safe_bind ?_ (fun endD _ => Out.safe_bind (addDateToDt_safe ..) (fun e _ =>
-          Out.safe_bind (asNanoseconds_safe _) (fun endNs _ => ?_)))
+          Out.safe_bind (utcEpochNs_safe _) (fun endNs _ => ?_)))
         · cases unit <;> simp_all [TUnit.isCalendarUnit] <;> exact Dur.new_safe _
         · dsimp only; split
           · exact ih _ _ hsucc
@@ -542,7 +543,7 @@ theorem diffDtWithRounding_safe (a b : IsoDateTime) (o : Resolved) (ha : MonthOk
     dsimp only
     split
     · exact Out.safe_pure _
-    · exact Out.safe_bind (asNanoseconds_safe _) (fun _ _ => roundRelativeDuration_safe _ _ _ _ _ hS)
+    · exact Out.safe_bind (utcEpochNs_safe _) (fun _ _ => roundRelativeDuration_safe _ _ _ _ _ hS)
 
 /-- `PlainDateTime::until / since` never panics (valid receiver, any argument, any options). -/
 theorem plainDateTimeDiffFull_safe (since : Bool) (a b : IsoDateTime) (raw : RawOptions) (ha : MonthOk a.date) :
@@ -569,7 +570,7 @@ theorem plainDateDiffFull_safe (since : Bool) (a b : IsoDate) (raw : RawOptions)
     refine Out.safe_bind ?_ (fun p _ => ?_)
     · split
       · exact Out.safe_pure _
-      · exact Out.safe_bind (asNanoseconds_safe _) (fun _ _ => roundRelativeDuration_safe _ _ _ _ _ hS)
+      · exact Out.safe_bind (utcEpochNs_safe _) (fun _ _ => roundRelativeDuration_safe _ _ _ _ _ hS)
     · obtain ⟨date, td⟩ := p
       exact Out.safe_bind (durFromNormalized_safe _ _ _ (by decide)) (fun _ _ => Out.safe_pure _)
 
@@ -588,7 +589,7 @@ theorem yearMonthDiffFull_safe (since : Bool) (a b : IsoDate) (raw : RawOptions)
       refine Out.safe_bind ?_ (fun p _ => ?_)
       · split
         · exact Out.safe_pure _
-        · exact Out.safe_bind (asNanoseconds_safe _) (fun _ _ => roundRelativeDuration_safe _ _ _ _ _ hS)
+        · exact Out.safe_bind (utcEpochNs_safe _) (fun _ _ => roundRelativeDuration_safe _ _ _ _ _ hS)
       · obtain ⟨date, td⟩ := p
         exact Out.safe_bind (durFromNormalized_safe _ _ _ (by decide)) (fun _ _ => Out.safe_pure _)
 
@@ -604,7 +605,9 @@ theorem roundRelPlainDate_safe (d : Dur) (raw : RawOptions) (rel : IsoDate) (hr 
   dsimp only
   split
   · exact Out.safe_ok _
-  · refine Out.safe_bind (Dur.new_safe _) (fun dd _ => Out.safe_bind (plainDateAdd_safe ..) (fun target _ => ?_))
+  · split
+    · exact Out.safe_range
+    refine Out.safe_bind (Dur.new_safe _) (fun dd _ => Out.safe_bind (plainDateAdd_safe ..) (fun target _ => ?_))
     refine Out.safe_bind (IsoDateTime.new_safe ..) (fun plainDt h1 => Out.safe_bind (IsoDateTime.new_safe ..) (fun targetDt _ => ?_))
     have hm : MonthOk plainDt.date := by rw [IsoDateTime.new_date h1]; exact hr
     refine Out.safe_bind (diffDtWithRounding_safe _ _ _ hm hS) (fun p _ => ?_)
@@ -637,11 +640,13 @@ theorem diffDtWithTotal_safe (a b : IsoDateTime) (u : TUnit) (ha : MonthOk a.dat
       dsimp only
       split
       · exact Out.safe_pure _
-      · exact Out.safe_bind (asNanoseconds_safe _) (fun _ _ => totalRelativeDuration_safe ..)
+      · exact Out.safe_bind (utcEpochNs_safe _) (fun _ _ => totalRelativeDuration_safe ..)
 
 /-- `Duration::total` relative to a plain date never panics. -/
 theorem totalRelPlainDate_safe (d : Dur) (u : TUnit) (rel : IsoDate) (hr : MonthOk rel) : (d.totalRelPlainDate u rel).Safe := by
   unfold Dur.totalRelPlainDate
+  split
+  · exact Out.safe_range
   dsimp only
   exact Out.safe_bind (Dur.new_safe _) (fun _ _ => Out.safe_bind (plainDateAdd_safe ..) (fun _ _ =>
     diffDtWithTotal_safe _ _ _ hr))
